@@ -72,7 +72,7 @@ Lexer::~Lexer() {
 int Lexer::peekNextChar() {
   if (bufferPos == buffer.end())
     return -1;
-  return *bufferPos;
+  return (unsigned char)*bufferPos;
 }
 
 int Lexer::getNextChar() {
@@ -81,7 +81,7 @@ int Lexer::getNextChar() {
 
   // Handle DOS/Mac newlines here, by stripping duplicates and by returning '\n'
   // for both.
-  char result = *bufferPos++;
+  int result = (unsigned char)*bufferPos++;
   if (result == '\n' || result == '\r') {
     if (bufferPos != buffer.end() && *bufferPos == ('\n' + '\r' - result))
       ++bufferPos;
